@@ -84,7 +84,7 @@ impl Prop for C18 {
 
     fn plan(&self, tier: Tier) -> Plan {
         let mut p = Plan::new(match tier {
-            Tier::Quick => 6000,
+            Tier::Quick => 20000,
             Tier::Thorough => 60_000,
         });
         p.workers = 8;
